@@ -593,6 +593,15 @@ func (g *gen) rewritePkgRefs(info *types.Info, node ast.Node) ast.Node {
 			// need further rewriting.
 			return true
 		}
+		// A field or method reached through an instantiated generic type is a
+		// copy of the one the type's declaration defines; new names are
+		// recorded for the latter.
+		switch o := obj.(type) {
+		case *types.Var:
+			obj = o.Origin()
+		case *types.Func:
+			obj = o.Origin()
+		}
 		if v, ok := obj.(*types.Var); ok && v.Embedded() {
 			// The identifier of an embedded field also names its type. If that
 			// type is a local that was renamed, the field is renamed with it,
